@@ -384,6 +384,13 @@ func (t *terminal) onCommand(f *ref.Frame) {
 	switch rule.Behaviour {
 	case "answer":
 		_ = t.write(mk(f.Serial))
+	case "answer_glued": // a heartbeat and the response leave the terminal in one write
+		resp := mk(f.Serial)
+		t.mu.Lock()
+		t.serial++
+		hs := t.serial
+		t.mu.Unlock()
+		_ = t.write(append(ref.Spec{ID: 0x0002, Version2019: t.v2019, VersionByte: 1, PhoneBCD: t.phone, Serial: hs}.Build(), resp...))
 	case "delay":
 		d := time.Duration(rule.DelayMs) * time.Millisecond
 		go func() { time.Sleep(d); _ = t.write(mk(f.Serial)) }()
